@@ -84,8 +84,13 @@ def solve_one(job):
     different obligations); cvc5 is tried when neither answers unsat."""
     import threading
     oid, text, want_second = job
+    hit = _cache_get(text)
+    if hit is not None and want_second in ('focused', False, None):
+        return oid, [('cache(%s)' % hit, 'unsat', 0.0)]
     if want_second == 'focused':
-        return oid, _solve_pair(text, FOCUSED_RLIMIT)
+        res = _solve_pair(text, FOCUSED_RLIMIT)
+        _cache_put(text, res)
+        return oid, res
     results = []
     box = {}
 
@@ -105,7 +110,45 @@ def solve_one(job):
     if r != 'unsat' and r2 != 'unsat':
         r3, dt3 = _solve_cli(['/usr/bin/cvc5', '--tlimit=%d' % (CVC5_TLIMIT_S * 1000)], text, CVC5_TLIMIT_S + 5)
         results.append(('cvc5-1.0.3-cli', r3, dt3))
+    _cache_put(text, results)
     return oid, results
+
+
+# Verdict cache: `unsat` answers keyed by the SHA-256 of the complete SMT-LIB text of the query (axioms, hypotheses, goal).
+# The text is regenerated from /repo's current source on every run; only the solver call is skipped when the identical
+# query was already refuted.  Disabled with PYVC_CACHE=0; lives in /verif/.cache (git-ignored, absent after a fresh restore).
+CACHE_DIR = os.path.join(os.path.dirname(os.path.dirname(os.path.abspath(__file__))), '.cache', 'smt')
+
+
+def _cache_key(text):
+    import hashlib
+    return hashlib.sha256(text.encode()).hexdigest()
+
+
+def _cache_get(text):
+    if os.environ.get('PYVC_CACHE', '1') == '0':
+        return None
+    try:
+        with open(os.path.join(CACHE_DIR, _cache_key(text))) as fh:
+            return fh.read().strip() or None
+    except OSError:
+        return None
+
+
+def _cache_put(text, results):
+    if os.environ.get('PYVC_CACHE', '1') == '0':
+        return
+    for name, verdict, _ in results:
+        if verdict == 'unsat':
+            try:
+                os.makedirs(CACHE_DIR, exist_ok=True)
+                tmp = os.path.join(CACHE_DIR, '.%d.tmp' % os.getpid())
+                with open(tmp, 'w') as fh:
+                    fh.write(name)
+                os.replace(tmp, os.path.join(CACHE_DIR, _cache_key(text)))
+            except OSError:
+                pass
+            return
 
 
 _fresh = [0]
